@@ -392,6 +392,9 @@ func (t *FnTrans) fieldTypeByName(typeFull, field string) types.Type {
 func (t *FnTrans) guardComp(mon *monRef, tname, g string) (string, string, bool) {
 	if gs, ok := mon.ts.GhostField[g]; ok {
 		c := "H." + tname + ".$" + g
+		if ex, has := t.compSort[c]; has {
+			return c, ex, true // already in use in this function (possibly at an instantiated sort)
+		}
 		return t.comp(c, "(Array Int "+gs+")"), "(Array Int " + gs + ")", true
 	}
 	ft := t.fieldTypeByName(mon.ts.Name, g)
